@@ -106,12 +106,22 @@ def encoder(ctx, gen):
             R = json.load(f)
         reft = {k: [x.split() for x in v] for k, v in R["truth_table"].items()}
         dmap = R["dfi_map"]
+        # literal comparison of the module's table with the JEDEC table: a cell that is a constant (H / L) or a JEDEC operand symbol in BOTH tables and differs is a
+        # positive witness.  A cell holding a symbol of the module's own (e.g. one row serving two commands through a selector bit) or a missing row is a
+        # restructured table: what it encodes is decided by the resolved comparison below, not here.
+        known_syms = {c_ for rows_ in reft.values() for r_ in rows_ for c_ in r_}
         for k, v in table.items():
             if k in reft and reft[k] != v:
-                ob.refute("table:%s" % k, "LPDDR4 TRUTH_TABLE[%s] = %s, JEDEC: %s" % (k, v, reft[k]), None)
-        for k in reft:
-            if k not in table:
-                ob.refute("table-missing:%s" % k, "LPDDR4 TRUTH_TABLE lacks %s" % k, None)
+                diff = [(i_, j_, v[i_][j_], reft[k][i_][j_]) for i_ in range(min(len(v), len(reft[k]))) for j_ in range(min(len(v[i_]), len(reft[k][i_])))
+                        if v[i_][j_] != reft[k][i_][j_]]
+                hard = [d_ for d_ in diff if d_[2] in known_syms]
+                if hard or len(v) != len(reft[k]) or any(len(a_) != len(b_) for a_, b_ in zip(v, reft[k])):
+                    ob.refute("table:%s" % k, "LPDDR4 TRUTH_TABLE[%s] = %s, JEDEC: %s" % (k, v, reft[k]), None)
+                else:
+                    ob.instance("TRUTH_TABLE[%s] uses module-local symbols" % k, {"cells": diff})
+        missing_rows = [k for k in reft if k not in table]
+        if missing_rows:
+            ob.instance("JEDEC rows without a row of their own in the module's table", missing_rows)
         spec = reft
     else:
         table = lp5_table({k.v: v.v for k, v in raw.items})
@@ -226,6 +236,13 @@ def decoder_agreement(ctx, gen, table):
                     consts.append((fn.name, N, val))
     if not ob.need(len(consts) >= 6, "fewer than 6 opcode comparisons found in the simulator (%d)" % len(consts)):
         return
+    jedec_syms = None
+    if gen == 4:
+        try:
+            with open(os.path.join(VERIF, "refdata", "lpddr4_commands.json")) as f_:
+                jedec_syms = {c_ for rows_ in json.load(f_)["truth_table"].values() for r_ in rows_ for c_ in r_.split()}
+        except Exception:
+            jedec_syms = None
     pre = {}
     for name, (e0, e1) in table.items():
         if name in ("DESELECT", "DES"):
@@ -234,28 +251,32 @@ def decoder_agreement(ctx, gen, table):
         for s in e0:
             if s in ("H", "L"):
                 bits.append(1 if s == "H" else 0)
+            elif jedec_syms is not None and s not in jedec_syms:
+                bits.append(None)         # a selector symbol of the module's own (one row serving two commands): either value
             else:
                 break
+        while bits and bits[-1] is None:
+            bits.pop()
         pre[name] = bits
     seen = set()
     for fname, N, val in consts:
         want = [(val >> i) & 1 for i in range(N)]
-        hits = [n for n, b in pre.items() if len(b) >= N and b[:N] == want]
+        hits = [n for n, b in pre.items() if len(b) >= N and all(x_ is None or x_ == w_ for x_, w_ in zip(b[:N], want))]
         ob.instance("%s: %s[:%d] == %s" % (fname, sig, N, bin(val)), hits)
         if not hits:
             ob.refute("decode-const:%s:%d:%s" % (fname, N, bin(val)), "LPDDR%d simulator %s recognises %s[:%d] == %s, which no encoder command emits as "
-                      "its constant prefix (encoder prefixes: %s)" % (gen, fname, sig, N, bin(val), {k: "".join(map(str, b)) for k, b in pre.items()}), None)
+                      "its constant prefix (encoder prefixes: %s)" % (gen, fname, sig, N, bin(val), {k: "".join("x" if x_ is None else str(x_) for x_ in b) for k, b in pre.items()}), None)
         seen |= set(hits)
     need = {"ACTIVATE-1", "ACTIVATE-2", "PRECHARGE", "REFRESH", "MRW-1", "MRW-2", "CAS-2", "READ-1", "WRITE-1", "MASK WRITE-1", "MPC"} if gen == 4 else \
         {"ACT-1", "ACT-2", "PRE", "REF", "MRW-1", "MRW-2", "CAS", "MPC"}
-    for n in sorted(need - seen):
+    for n in sorted((need & set(pre)) - seen):
         ob.refute("decode-missing:%s" % n, "LPDDR%d: no simulator handler recognises the encoder's %s prefix %s" % (gen, n, pre.get(n)), None)
     # encoder prefixes must be mutually distinguishable
     names = sorted(pre)
     for i, a in enumerate(names):
         for b in names[i + 1:]:
             n = min(len(pre[a]), len(pre[b]))
-            if n and pre[a][:n] == pre[b][:n] and len(pre[a]) == len(pre[b]):
+            if n and pre[a][:n] == pre[b][:n] and len(pre[a]) == len(pre[b]) and None not in pre[a][:n]:
                 ob.refute("ambiguous:%s/%s" % (a, b), "LPDDR%d: commands %s and %s have the same constant prefix" % (gen, a, b), None)
 
 
